@@ -21,7 +21,7 @@ META = {
     "assumptions": ["field-wise equality: numbers as floats (nan/inf by class), sequences modulo tuple/list; non-numeric distribution descriptors compared as strings"],
     "deciding": ["roundtrip:result-json", "roundtrip:region-dict"],
 }
-META["added"] = 'Added: finalize() makes the run inconclusive when a result class is never produced, quantile pairs with nan / inf, second rebuild from the same dictionary object and from its JSON text. lowest magnitude edge 0.0, lattices at longitudes >= 180. second serialization of the same result object.'
+META["added"] = 'Added: finalize() makes the run inconclusive when a result class is never produced, quantile pairs with nan / inf, second rebuild from the same dictionary object and from its JSON text. lowest magnitude edge 0.0, lattices at longitudes >= 180. second serialization of the same result object. single-catalog forecasts (one-element distributions), numeric-looking names.'
 MANIFEST = {
     "technique": "boundary recorder on EvaluationResult.to_dict/from_dict, csep.write_json, csep.load_evaluation_result and CartesianGrid2D.to_dict/from_dict; results are produced by the library's own 19 evaluation functions on generated inputs; field-wise equality oracle; class-coverage ledger",
     "level_text": "Every result class the library can produce is obtained by actually running each of the 19 evaluation functions on generated inputs (including -inf, NaN, None and empty-distribution outcomes) and round-tripped through JSON; all documented fields must be equal and the class preserved; the ledger lists which function produced which class and a class never produced makes the run inconclusive. Unmasked Cartesian regions rebuilt from their dict must give the same cell for every probe.",
@@ -69,6 +69,9 @@ def numeric_only(x):
 
 def field_equal(f, a, b):
     if f == "test_distribution":
+        seq = (list, tuple, numpy.ndarray)
+        if isinstance(a, seq) and not (isinstance(b, seq) and len(b) == len(a)):
+            return False          # a numeric distribution of n entries must come back as a sequence of n entries (also for n = 1)
         return numeric_only(a) == numeric_only(b)
     return canon(a) == canon(b)
 
@@ -78,6 +81,8 @@ def roundtrip(ctx, res, rc, producer, tmp):
     from csep.models import EvaluationResult
     cname = type(res).__name__
     ctx.note_set("producers", "%s -> %s" % (producer, cname))
+    if isinstance(res.test_distribution, numpy.ndarray) and res.test_distribution.size == 1:
+        ctx.add("results_with_one_element_array_distribution")
     tags = {"producer": producer, "cls": cname, "status": res.status}
     path = os.path.join(tmp, "res.json")
     ctx.mon("roundtrip:result-json", 1)
@@ -137,8 +142,10 @@ def ex_gridded(ctx, case, ratesB, seed=0):
     tmp = scratch_dir("c18-")
     try:
         def fresh():
-            fa, cat, reg, w = gridcases.build(case, name="fore A")
-            fb = fixtures.gridded_forecast(numpy.array(ratesB, dtype=float), reg, fa.magnitudes, name="fore,B")
+            # names that read like numbers are still names
+            fa, cat, reg, w = gridcases.build(case, name=["fore A", "2010", "1.5", "nan"][seed % 4])
+            cat.name = ["obs", "2011", "7", "catalog 7"][seed % 4]
+            fb = fixtures.gridded_forecast(numpy.array(ratesB, dtype=float), reg, fa.magnitudes, name=["fore,B", "2012", "-3e5", "inf"][seed % 4])
             return fa, fb, cat, w
         fa, fb, cat, w = fresh()
         rates = numpy.array(case["rates"])
@@ -287,6 +294,11 @@ def run(ctx):
         fc = c13.gen_forecast(r, {"source": "memory", "filters": False, "spatial": False})
         if j % 4 == 1:
             fc["cats"] = [c if k % 2 else [] for k, c in enumerate(fc["cats"])]       # many empty synthetic catalogs
+        elif j % 8 == 2:
+            fc["cats"] = [c for c in fc["cats"] if c][:1] or fc["cats"][:1]           # a single synthetic catalog: one-element test distributions
+        elif j % 8 == 6:
+            first = next((k for k, c in enumerate(fc["cats"]) if c), 0)
+            fc["cats"] = [c if k == first else [] for k, c in enumerate(fc["cats"])]   # only one synthetic catalog holds events
         ex_catalog_based(ctx, fc, obs_mode="empty" if j % 3 == 0 else "normal", seed=j)
         if j % 40 == 0:
             ctx.sample({"gridded_case": {"cells": len(case["rates"]), "mags": case["nmag"], "events": len(case["ev_cell"])},
